@@ -10,6 +10,7 @@ package objects
 import (
 	"bytes"
 	"compress/gzip"
+	"encoding/binary"
 	"fmt"
 
 	"github.com/pkg/errors"
@@ -344,7 +345,8 @@ func (t *GzipPacked) UnmarshalTL(d *tl.Decoder) error {
 		return err
 	}
 
-	t.Obj, err = tl.DecodeUnknownObject(obj)
+	// packed object can be a vector (result of rpc call), so hints of outer decoder are passed through
+	t.Obj, err = tl.DecodeUnknownObject(obj, d.ExpectedTypes()...)
 	if err != nil {
 		return errors.Wrap(err, "parsing gzipped object")
 	}
@@ -478,4 +480,21 @@ type MsgsNewDetailedInfo struct {
 
 func (*MsgsNewDetailedInfo) CRC() uint32 {
 	return 0x809db6df //nolint:gomnd not magic
+}
+
+// UnpackGzip returns unpacked content of serialized gzip_packed object. If data is not a gzip_packed object,
+// it returns data as is and false.
+func UnpackGzip(data []byte) ([]byte, bool) {
+	if len(data) < tl.WordLen || binary.LittleEndian.Uint32(data) != CrcGzipPacked {
+		return data, false
+	}
+	d, err := tl.NewDecoder(bytes.NewReader(data[tl.WordLen:]))
+	if err != nil {
+		return data, false
+	}
+	unpacked, err := (&GzipPacked{}).popMessageAsBytes(d)
+	if err != nil {
+		return data, false
+	}
+	return unpacked, true
 }
